@@ -7,6 +7,13 @@ ENGINES = [
 NOTES = "All checks rebuild from /repo's current working tree. Exit 2 = internal error of the machinery (never a verdict)."
 NOT_APPLICABLE = {}
 META = {
+    "C02": {
+        "engine": "explicit-state search over event histories + controlled scheduler (vsched)",
+        "design_ref": "DESIGN.md section 3 C02",
+        "technique": "exhaustive enumeration of control/write event histories up to a depth on a real TaskMaster against a reference router + deviation-bounded exploration of control operations racing with writes under a controlled scheduler",
+        "level_text": "Part (a): every applicable history of start/stop/delete/write events up to the depth over 4 universes of 3 tasks (10 task shapes) is executed on a real TaskMaster, every from() sink is compared with a reference router after every event. Part (b): 5 scenarios in which a control goroutine starts/stops/deletes one task while a writer writes 3 points; every schedule up to the deviation bound; the undisturbed task must see exactly the acknowledged writes in order, the other task no duplicates or reordering.",
+        "level_note": "Trusted: Go runtime/synctest, |log() sinks, instrumenter. The HTTP write path (serveWriteLine) is not driven; C20 drives it for authorisation only.",
+    },
     "C17": {
         "engine": "controlled scheduler (vsched)",
         "design_ref": "DESIGN.md section 3 C17, section 2.3",
